@@ -97,7 +97,7 @@ type SerialCase struct {
 	Zeros    int     `json:"zeros,omitempty"`
 	WFail    int     `json:"wfail"` // writer fails at this byte (-1: never)
 	RFail    int     `json:"rfail"` // reader fails at this byte (-1: never)
-	Damage   string  `json:"damage,omitempty"` // C15: "", enumerate, or a pinned damage "torn:k" | "flip:k:bit" | "dup:i" | "drop:i"
+	Damage   string  `json:"damage,omitempty"` // C15: "", enumerate, or a pinned damage "torn:k" | "head:k" | "flip:k:bit" | "zero:k:n" | "xpose:a:b:c" | "dup:i" | "drop:i" | "merge:i", or two joined by "+"
 	Rendered []string `json:"rendered,omitempty"`
 }
 
@@ -440,23 +440,102 @@ func (h *serialHarness) damages(c *SerialCase, img []byte, r *Rand) []damage {
 	nl := len(splitLines(img))
 	for i := 0; i < nl; i++ {
 		ds = append(ds, applyDamage(fmt.Sprintf("dup:%d", i), img), applyDamage(fmt.Sprintf("drop:%d", i), img))
+		ds = append(ds, applyDamage(fmt.Sprintf("merge:%d", i), img)) // the record separator is lost
+	}
+	if len(img) > 0 {
+		// the head of the file is lost (first extent never reached the disk): every offset of small images
+		if len(img) <= 400 {
+			for k := 1; k < len(img); k++ {
+				ds = append(ds, applyDamage(fmt.Sprintf("head:%d", k), img))
+			}
+		} else {
+			for i := 0; i < 60; i++ {
+				ds = append(ds, applyDamage(fmt.Sprintf("head:%d", 1+r.Intn(len(img)-1)), img))
+			}
+		}
+		// adjacent extents written in the wrong order, an extent left unwritten (zeros)
+		for i := 0; i < 40 && len(img) > 2; i++ {
+			a := r.Intn(len(img) - 2)
+			b := a + 1 + r.Intn(len(img)-a-1)
+			c := b + 1 + r.Intn(len(img)-b)
+			ds = append(ds, applyDamage(fmt.Sprintf("xpose:%d:%d:%d", a, b, c), img))
+		}
+		for i := 0; i < 25; i++ {
+			ds = append(ds, applyDamage(fmt.Sprintf("zero:%d:%d", r.Intn(len(img)), 1+r.Intn(8)), img))
+		}
+		// sampled double damage: two independent storage faults hit the same file
+		single := func() string {
+			switch r.Intn(6) {
+			case 0:
+				return fmt.Sprintf("torn:%d", r.Intn(len(img)))
+			case 1:
+				return fmt.Sprintf("flip:%d:%d", r.Intn(len(img)), r.Intn(8))
+			case 2:
+				return fmt.Sprintf("merge:%d", r.Intn(nl+1))
+			case 3:
+				return fmt.Sprintf("drop:%d", r.Intn(nl+1))
+			case 4:
+				return fmt.Sprintf("zero:%d:%d", r.Intn(len(img)), 1+r.Intn(4))
+			}
+			return fmt.Sprintf("head:%d", 1+r.Intn(len(img)))
+		}
+		for i := 0; i < 50; i++ {
+			ds = append(ds, applyDamage(single()+"+"+single(), img))
+		}
+		for i := 0; i < 30 && nl > 1; i++ {
+			// a lost head in front of a lost separator: the first record starts in the middle and runs into the next
+			ds = append(ds, applyDamage(fmt.Sprintf("head:%d+merge:0", 1+r.Intn(len(img)-1)), img))
+		}
 	}
 	return ds
 }
 
 func applyDamage(spec string, img []byte) damage {
+	out := append([]byte{}, img...)
+	for _, one := range strings.Split(spec, "+") {
+		out = applyOne(one, out)
+	}
+	return damage{spec, out}
+}
+
+func applyOne(spec string, img []byte) []byte {
 	p := strings.Split(spec, ":")
-	a := func(i int) int { n, _ := strconv.Atoi(p[i]); return n }
+	a := func(i int) int {
+		if i >= len(p) {
+			return 0
+		}
+		n, _ := strconv.Atoi(p[i])
+		return n
+	}
 	out := append([]byte{}, img...)
 	switch p[0] {
 	case "torn":
 		if k := a(1); k <= len(out) {
 			out = out[:k]
 		}
+	case "head":
+		if k := a(1); k <= len(out) {
+			out = out[k:]
+		}
 	case "flip":
 		if k := a(1); k < len(out) {
 			out[k] ^= 1 << uint(a(2))
 		}
+	case "zero":
+		for k := a(1); k < a(1)+a(2) && k < len(out); k++ {
+			out[k] = 0
+		}
+	case "xpose":
+		x, y, z := a(1), a(2), a(3)
+		if 0 <= x && x < y && y < z && z <= len(out) {
+			out = append(append(append(append([]byte{}, img[:x]...), img[y:z]...), img[x:y]...), img[z:]...)
+		}
+	case "merge":
+		ls := splitLines(img)
+		if i := a(1); i < len(ls) && len(ls[i]) > 0 && ls[i][len(ls[i])-1] == '\n' {
+			ls[i] = ls[i][:len(ls[i])-1]
+		}
+		out = joinLinesB(ls)
 	case "dup":
 		ls := splitLines(img)
 		if i := a(1); i < len(ls) {
@@ -470,7 +549,7 @@ func applyDamage(spec string, img []byte) damage {
 		}
 		out = joinLinesB(ls)
 	}
-	return damage{spec, out}
+	return out
 }
 
 func (h *serialHarness) runDamage(t *testing.T, c *SerialCase) *Outcome {
@@ -490,7 +569,11 @@ func (h *serialHarness) runDamage(t *testing.T, c *SerialCase) *Outcome {
 	kinds := map[string]int64{}
 	for _, d := range h.damages(c, w.buf, r) {
 		o.Execs++
-		kinds[strings.SplitN(d.name, ":", 2)[0]]++
+		if strings.Contains(d.name, "+") {
+			kinds["double_damage"]++
+		} else {
+			kinds[strings.SplitN(d.name, ":", 2)[0]]++
+		}
 		if v := h.judgeImage(ctx, c, d, r); v != nil {
 			dd := *c
 			dd.Damage = d.name
